@@ -3,6 +3,7 @@ def props(P):
     sim = lambda test, q, th, **kw: P("sim", test, q, th, **kw)
     return {
         "C01": sim("TestC01", (1200, 300), (16, 2500, 1500)),
+        "C02": sim("TestC02", (400, 300), (16, 1500, 1800)),
         "C03": sim("TestC03", (1200, 300), (16, 2500, 1500)),
         "C04": sim("TestC04", (1200, 300), (16, 2500, 1500)),
         "C05": sim("TestC05", (1200, 300), (16, 2500, 1500), regress="TestRegressC05"),
